@@ -152,12 +152,23 @@ fn build_noise(n: &Noise, d: &Driver) -> (bool, Vec<u8>, u128) {
             (false, announce_frame(src, n.seq, &g, domain, 0, 0).encode(), rx)
         }
         5 => (false, announce_frame(own_pid, n.seq, &GmData::simple(BETTER_ID, 1), domain, 0, 0).encode(), rx),
-        6 => {
-            let (ev, f) = template(1 + n.variant % 2, Pid::new([0x77; 8], 3));
-            (ev, f.encode(), rx)
-        }
-        7 => {
-            let (ev, f) = template(3, Pid::new([0x77; 8], 3));
+        6 | 7 => {
+            // a sender that is NOT the currently selected parent: a stranger, another port of the
+            // parent's clock, or one of the known masters of this segment
+            let pd = node.inst.parent_ds();
+            let parent = Pid::new(pd.parent_port_identity.clock_identity.0, pd.parent_port_identity.port_number);
+            let cands = [
+                Pid::new([0x77; 8], 3),
+                Pid::new(parent.clock, parent.port.wrapping_add(1)),
+                Pid::new(BETTER_ID, (p + 1) as u16),
+                Pid::new(BETTER_ID, (40 + p) as u16),
+                Pid::new(WORSE_ID, (p + 1) as u16),
+            ];
+            let mut src = cands[((n.variant / 7) % cands.len() as u64) as usize];
+            if src == parent {
+                src = cands[0];
+            }
+            let (ev, f) = if n.class == 6 { template(1 + n.variant % 2, src) } else { template(3, src) };
             (ev, f.encode(), rx)
         }
         _ => {
